@@ -25,8 +25,12 @@
   inline_seq_eq_runtime_partial
   failed_render_keeps_cache_sound
   inline_seq_after_failure_partial
+  runtime_eq_spec_partial
+  inline_eq_spec_partial
+  spec_restart_witness
 -/
 import Genshi.Lemmas.InclErase
+import Genshi.Lemmas.InclSpec
 import Genshi.Lemmas.InclGuard
 import Genshi.Gen.Incl
 namespace Genshi.Props.C11
@@ -230,6 +234,38 @@ theorem inline_seq_after_failure_partial (T : List Name) (files : Files) (hH : i
       simp only [renderSeqF, renderSeq, List.map_cons]
       rw [h.1, ih _ h.2, hrt]
   exact key qs [] (by intro n b h; simp at h)
+
+/-
+  Full statement (false, `spec_restart_witness`): for every file set, entry, data and fuel
+      renderRuntime files entry kind data fuel = renderSpec files entry kind data fuel
+  — run-time includes produce what the property's own words describe: the target's content in place of
+  the include, in the includer's context.  Proved for file sets in which no match template is defined
+  (`noMtFiles`): there the window of match templates, the one thing a run-time include restarts and a
+  replacement in place does not, cannot matter.  Missing for file sets with match templates: the
+  simulation of `simL` (zones, `Coup`) redone for spec-vs-run-time, under `inH` strengthened by "no
+  expression-valued include inside a zone" (both loader modes restart the match filter there, a
+  replacement in place does not: `spec_restart_witness`).
+-/
+/-- **an include stands for its target** (no match templates in the file set): the run-time mode renders
+    exactly what the specification evaluator renders — same events, same error, both out of fuel -/
+theorem runtime_eq_spec_partial (files : Files) (hF : noMtFiles files = true)
+    (entry : Name) (kind : Kind) (data : List (Name × Value)) (fuel : Nat) :
+    renderRuntime files entry kind data fuel = renderSpec files entry kind data fuel := by
+  simp only [renderRuntime, renderSpec, loadT]
+  cases hraw : loadRaw files entry kind with
+  | fuel => rfl
+  | err e => rfl
+  | ok body =>
+    simp only [Res.map_ok, Res.bind_ok]
+    have h0 : OkSt (St.init data) := ⟨rfl, rfl, by intro p hp; simp [St.init] at hp⟩
+    have := specL_sr hF (spec_sr hF fuel) body (.ofKind kind) (.ofKind kind) (St.init data) (loadRaw_noMt hF hraw) h0
+    rw [this.1]
+
+/-- … and so does the inline mode, inside the hypothesis of `inline_eq_runtime_partial` -/
+theorem inline_eq_spec_partial (T : List Name) (files : Files) (hH : inH T files = true) (hF : noMtFiles files = true)
+    (entry : Name) (kind : Kind) (data : List (Name × Value)) (fuel : Nat) :
+    renderInline files entry kind data fuel = renderSpec files entry kind data fuel := by
+  rw [inline_eq_runtime_partial T files hH, runtime_eq_spec_partial files hF]
 
 /-- recursive and mutually recursive includes terminate under the same conditions in both modes:
 one mode runs out of any amount of fuel iff the other does, and one mode reaches a result with
@@ -577,6 +613,48 @@ example : (renderSeqF .inlineM exFail 6 [] exFailReqs).map (fun x => (x.1, x.2.m
      (.ok [.start ['d'], .start ['e'], .text ['C'], .stop ['e'], .text ['!'], .stop ['d']],
       [nB, ['c', '.', 'h', 't', 'm', 'l'], nA])] := by decide +kernel
 example : (renderOn .inlineM exFail 6 [] (nA, .markup, [(['h', '0'], .str nB)])).2 = [] := by decide +kernel
+
+/-- `a.html` = `<py:match path="x">[${select('*|text()')}]</py:match><py:match path="y">Y<y/></py:match>
+    <x><xi:include href="${h0}"/></x>`, `b.html` = `<y/>`.  The include sits in the content of a matched element:
+    that content is produced under the window `[0, 1)` and then spliced into the body of template 0, which is
+    open to template 1.  Replaced in place, `<y/>` reaches the body untouched and template 1 rewrites it once.
+    Loaded at run time, `b.html` runs through its own match filter first (template 1 applies: `Y<y/>`), and
+    the `<y/>` it leaves is rewritten once more in the body. -/
+def exRestart : Files :=
+  [[(nA, ⟨.markup, some [.matchT ['x'] [.text ['['], .select, .text [']']],
+                          .matchT ['y'] [.text ['Y'], .elem ['y'] []],
+                          .elem ['x'] [.include (.dyn [.var ['h', '0']]) .markup false [] nA]]⟩),
+    (nB, ⟨.markup, some [.elem ['y'] []]⟩)]]
+
+/-- With match templates the full statement `runtime = spec` is false — inside `inH`, where both loader modes
+    agree with each other: an expression-valued include in a zone restarts the match filter in both modes. -/
+theorem spec_restart_witness :
+    renderRuntime exRestart nA .markup [(['h', '0'], .str nB)] 6
+      = .ok [.text ['['], .text ['Y'], .text ['Y'], .start ['y'], .stop ['y'], .text [']']] ∧
+    renderSpec exRestart nA .markup [(['h', '0'], .str nB)] 6
+      = .ok [.text ['['], .text ['Y'], .start ['y'], .stop ['y'], .text [']']] ∧
+    renderInline exRestart nA .markup [(['h', '0'], .str nB)] 6
+      = renderRuntime exRestart nA .markup [(['h', '0'], .str nB)] 6 ∧
+    inH (matchTags exRestart) exRestart = true := by decide +kernel
+
+/-- non-vacuity of `runtime_eq_spec_partial`: a file set without match templates (nested and recursive
+    includes, a macro crossing the file boundary, fallback, text include, expression-valued href) -/
+def exSpec : Files :=
+  [[(nA, ⟨.markup, some [.elem ['d'] [
+        .include (.static nSubC) .markup false [] nA,
+        .call ['m', '0'],
+        .include (.static nNope) .markup true [.text ['F'], .var ['s', '0']] nA,
+        .include (.static nT) .text false [] nA,
+        .include (.dyn [.var ['h', '0']]) .markup true [] nA]]⟩),
+    (nSubC, ⟨.markup, some [.elem ['e'] [
+        .defn ['m', '0'] [.text ['M'], .var ['s', '0']],
+        .loop ['t', '0'] ['t', '0'] [.include (.static ['.', '.', '/', 'a', '.', 'h', 't', 'm', 'l']) .markup false [] nSubC]]]⟩),
+    (nT, ⟨.text, some [.text ['T'], .include (.static nNope) .text true [] nT]⟩)]]
+
+example : noMtFiles exSpec = true ∧ inH (matchTags exSpec) exSpec = true := by decide +kernel
+example : renderSpec exSpec nA .markup exData 9 = renderRuntime exSpec nA .markup exData 9 ∧
+    (match renderSpec exSpec nA .markup exData 9 with | .ok evs => evs.length | _ => 0) = 18 ∧
+    renderSpec exSpec nA .markup exData 2 = .fuel := by decide +kernel
 
 def exLayout : Files :=
   [[(nA, ⟨.markup, some [.elem ['d'] [
